@@ -40,6 +40,10 @@ Acts(S) ==
              \cup {[a |-> "SetOther", s |-> s, t |-> t, u |-> u, mode |-> m, chan |-> FALSE] : s \in Sessions, t \in pt, u \in Users, m \in {<<"J","R","W","P","A","S","D","O">>, <<"N">>}}
              \cup {[a |-> "DelTopic", s |-> s, t |-> t, hard |-> TRUE, chan |-> FALSE] : s \in Sessions, t \in pt}
              \cup {[a |-> "Unload", t |-> t] : t \in pt} \cup {[a |-> "Reload", t |-> t] : t \in pt}
+      \* self / search / system topics: not tracked by the model, judged by the monitors
+      special == {[a |-> "Sub", s |-> s, t |-> t, mode |-> <<"-">>, chan |-> FALSE, bg |-> FALSE] : s \in Sessions, t \in {"me", "fnd", "sys"} \cup {"fnd:" \o u : u \in Users}}
+                 \cup {[a |-> "Pub", s |-> s, t |-> t, c |-> "c1", noecho |-> FALSE, chan |-> FALSE] : s \in Sessions, t \in {"me", "fnd", "sys"}}
+                 \cup {[a |-> "Leave", s |-> s, t |-> t, unsub |-> b, chan |-> FALSE] : s \in Sessions, t \in {"me", "fnd", "sys"}, b \in BOOLEAN}
       obo == {[a |-> "Sub", s |-> s, t |-> t, mode |-> <<"-">>, chan |-> FALSE, bg |-> FALSE, obo |-> u] : s \in RootSessions, t \in live, u \in Users}
              \cup {[a |-> "Pub", s |-> s, t |-> t, c |-> "c1", noecho |-> FALSE, chan |-> FALSE, obo |-> u] : s \in RootSessions, t \in live, u \in Users}
              \cup {[a |-> "Leave", s |-> s, t |-> t, unsub |-> FALSE, chan |-> FALSE, obo |-> u] : s \in RootSessions, t \in live, u \in Users}
@@ -72,7 +76,7 @@ Acts(S) ==
      \cup (IF "SetOther" \in Kinds THEN { x \in setother : x.t \in M(S.sess[x.s].subs) /\ x.u # SessUser[x.s]} ELSE {})
      \cup (IF "DelSub" \in Kinds THEN delsub ELSE {}) \cup (IF "Pub" \in Kinds THEN pub ELSE {})
      \cup (IF "Note" \in Kinds THEN note ELSE {})
-     \cup (IF "P2P" \in Kinds THEN p2p ELSE {}) \cup (IF "Obo" \in Kinds THEN obo ELSE {})
+     \cup (IF "P2P" \in Kinds THEN p2p ELSE {}) \cup (IF "Obo" \in Kinds THEN obo ELSE {}) \cup (IF "Special" \in Kinds THEN special ELSE {})
      \* requests that need attachment are drawn for attached sessions (plus one detached representative: the refusal path)
      \cup (IF "DelMsg" \in Kinds THEN {x \in delmsg : x.t \in M(S.sess[x.s].subs) \/ (x.s = SessOrder[Len(SessOrder)] /\ x.ranges = << <<1, 0>> >>)} ELSE {})
      \cup (IF "GetData" \in Kinds THEN {x \in getdata : x.t \in M(S.sess[x.s].subs) \/ (x.s = SessOrder[Len(SessOrder)] /\ x.since = 0 /\ x.before = 0 /\ x.limit = 0)} ELSE {})
@@ -90,12 +94,14 @@ ObsOf(S, a, r) ==
    ackDel |-> IF a.a = "DelMsg" /\ r.out.code = 200 THEN r.out.seq ELSE 0,
    delmeta |-> {},
    afterCrash |-> FALSE,
-   acs |-> {}]
+   acs |-> {},
+   sysPre |-> 0, sysPost |-> 0]
 
 \* simulation: first draw the KIND of request uniformly among the kinds that have an enabled instance, then the instance
 \* (otherwise kinds with large argument alphabets crowd out publishes and subscriptions)
 KindOf(a) == IF a.a = "Get" THEN "Get" \o a.what
              ELSE IF "obo" \in DOMAIN a THEN "obo" \o a.a
+             ELSE IF "t" \in DOMAIN a /\ a.t \notin Topics THEN "special" \o a.a
              ELSE IF "t" \in DOMAIN a /\ a.t \notin GrpTopics THEN "p2p" \o a.a ELSE a.a
 RandomAct(S) ==
   LET acts == Acts(S)
